@@ -111,7 +111,17 @@ func c17Compare(t *VT, ref *c17Ref) (string, string, int64) {
 
 type c17Totals struct{ cases, scrolls, advances, wraps int64 }
 
-func c17RunCase(c *vlib.Case, run *vlib.Run, tot *c17Totals, w, h, sb, tab int, dfg, dbg byte, ops []c17Op, fp vlib.FP) {
+// c17Other is a second terminal that is alive during the case: attached to its
+// own console after the subject, written to between the subject's operations
+// and compared with its own reference.
+type c17Other struct {
+	w, h, sb, tab int
+	fg, bg        byte
+	ops           []c17Op
+	r             *vlib.Rand
+}
+
+func c17RunCase(c *vlib.Case, run *vlib.Run, tot *c17Totals, w, h, sb, tab int, dfg, dbg byte, ops []c17Op, fp vlib.FP, other *c17Other) {
 	cons := &c17MockCons{w: uint32(w), h: uint32(h), fg: dfg, bg: dbg}
 	ref := c17NewRef(w, h, sb, tab, dfg, dbg)
 	vt := NewVT(uint8(tab), uint32(sb))
@@ -130,7 +140,55 @@ func c17RunCase(c *vlib.Case, run *vlib.Run, tot *c17Totals, w, h, sb, tab int, 
 	// out of step with the cursor shows up as a misplaced cell
 	ops = append(ops, c17Op{kind: c17OpWriteByte, data: []byte{'#'}})
 
+	var ovt *VT
+	var oref *c17Ref
+	var oback []byte
+	onext := 0
+	if other != nil {
+		ocons := &c17MockCons{w: uint32(other.w), h: uint32(other.h), fg: other.fg, bg: other.bg}
+		oref = c17NewRef(other.w, other.h, other.sb, other.tab, other.fg, other.bg)
+		ovt = NewVT(uint8(other.tab), uint32(other.sb))
+		if pv, st := vlib.Protect(func() { ovt.AttachTo(ocons); oback = c17Rehome(ovt) }); pv != nil {
+			c.Violation("panic:AttachTo:"+vlib.PanicClass(pv), map[string]interface{}{"panic": fmt.Sprint(pv), "stack": st, "terminal": "second"})
+			return
+		}
+		run.Count("cases_with_a_second_terminal_alive", 1)
+		if sig, what, _ := c17Compare(vt, ref); sig != "" {
+			c.Violationf("after-second-terminal-attached:"+sig, "first terminal %dx%d after a second terminal was attached to a %dx%d console: %s", w, h, other.w, other.h, what)
+			return
+		}
+	}
+	stepOther := func() bool {
+		for other != nil && onext < len(other.ops) && other.r.Chance(1, 3) {
+			op := other.ops[onext]
+			onext++
+			op.applyRef(oref)
+			pv, st := vlib.Protect(func() { op.applyVT(ovt) })
+			if pv != nil {
+				c.Violation("panic:"+vlib.PanicSite(st)+":"+vlib.PanicClass(pv), map[string]interface{}{"terminal": "second", "op": op.String(), "panic": fmt.Sprint(pv), "stack": st})
+				return false
+			}
+			run.Count("ops_on_second_terminal", 1)
+			if g := c17GuardsIntact(oback); g != 1<<40 {
+				c.Violationf("store-outside-buffer", "second terminal, %s: byte at offset %d relative to its buffer (length %d) was overwritten", op.String(), g, len(ovt.data))
+				return false
+			}
+			if sig, what, _ := c17Compare(ovt, oref); sig != "" {
+				c.Violationf("second-terminal:"+sig, "second terminal %dx%d scrollback %d tab %d (first terminal %dx%d) after %s: %s", other.w, other.h, other.sb, other.tab, w, h, op.String(), what)
+				return false
+			}
+			if sig, what, _ := c17Compare(vt, ref); sig != "" {
+				c.Violationf("changed-by-other-terminal:"+sig, "first terminal %dx%d changed when the second terminal (%dx%d) did %s: %s", w, h, other.w, other.h, op.String(), what)
+				return false
+			}
+		}
+		return true
+	}
+
 	for i, op := range ops {
+		if !stepOther() {
+			return
+		}
 		op.applyRef(ref)
 		var bad string
 		pv, st := vlib.Protect(func() { bad = op.applyVT(vt) })
@@ -209,7 +267,7 @@ func TestVerifC17(t *testing.T) {
 	run := vlib.Start(t, "C17")
 	defer run.Finish()
 	run.SetRule("case = console geometry (1x1..132x60, 1-column and 1-row over-represented), scrollback from {0,1,2,80,random}, tab width from {0,1,4,8,255,around the line width}, console default colours random, and a history of up to 160 operations (Write in random chunks, WriteByte, SetCursorPosition incl. 0 / beyond the viewport / 2^32-1, SetState) over a stream built from segments biased to \\n \\r \\b \\t, runs crossing line/viewport/buffer ends, hundreds of line feeds, all 256 byte values; after every operation cursor, viewport origin and every cell of the buffer are compared with the reference terminal; non-trivial = history with at least one wrap after the last column and at least one line feed taken on the last viewport line; distinct = fingerprint of (geometry, scrollback, tab width, colours, operation list)")
-	run.Assume("the console is a mock that only reports its geometry and default colours (the consoles are the subject of C18/C19); a terminal is attached once")
+	run.Assume("the console is a mock that only reports its geometry and default colours (the consoles are the subject of C18/C19); a terminal is attached once; in a quarter of the cases a second terminal on a console of other width and colours is alive at the same time, written to between the first one's operations and compared with its own reference")
 
 	var tot c17Totals
 	n := run.N(3000, 300000)
@@ -245,7 +303,34 @@ func TestVerifC17(t *testing.T) {
 			nbytes += len(op.data)
 		}
 		c.Begin(map[string]interface{}{"cols": w, "rows": h, "scrollback": sb, "tab": tab, "default_fg": dfg, "default_bg": dbg, "ops": len(ops), "stream_bytes": nbytes, "history_fp": fmt.Sprintf("%016x", uint64(fp))})
-		c17RunCase(c, run, &tot, w, h, sb, tab, dfg, dbg, ops, fp)
+		var other *c17Other
+		if r.Chance(1, 4) {
+			// a second terminal on a console of its own: narrower, wider or the same width, other default colours
+			or := r.Fork(2)
+			ow, oh := c17Geometry(or, 132, 30)
+			switch or.Intn(4) {
+			case 0:
+				ow = w
+			case 1:
+				if w > 1 {
+					ow = or.Range(1, w-1)
+				}
+			}
+			other = &c17Other{w: ow, h: oh, sb: or.PickInt([]int{0, 0, 1, 5}), tab: or.PickInt([]int{0, 4, 8}), fg: byte(or.Intn(256)), bg: byte(or.Intn(256)), r: or}
+			if or.Chance(1, 3) {
+				other.fg, other.bg = dfg, dbg
+			}
+			og := &c17GenCfg{w: ow, h: oh, sb: other.sb, tab: other.tab, maxOps: or.Range(1, 30), maxBytes: 8000, maxRun: 6000, states: true, stateBias: 12}
+			if lim := 300000 / ((oh + other.sb) * ow); og.maxOps > lim {
+				og.maxOps = lim
+				if og.maxOps < 2 {
+					og.maxOps = 2
+				}
+			}
+			other.ops = c17GenOps(or.Fork(3), og)
+			fp = fp.Int(ow).Int(oh).Int(len(other.ops))
+		}
+		c17RunCase(c, run, &tot, w, h, sb, tab, dfg, dbg, ops, fp, other)
 	})
 
 	// fixed histories: the degenerate corners the statement names
@@ -286,7 +371,7 @@ func TestVerifC17(t *testing.T) {
 				c17Op{kind: c17OpCursor, x: ^uint32(0), y: ^uint32(0)}, c17Op{kind: c17OpWriteByte, data: []byte{'\t'}})
 			fp := vlib.NewFP().Int(f.w).Int(f.h).Int(f.sb).Int(f.tab).Str(f.stream)
 			c.Begin(map[string]interface{}{"fixed": i, "cols": f.w, "rows": f.h, "scrollback": f.sb, "tab": f.tab, "stream": f.stream})
-			c17RunCase(c, run, &tot, f.w, f.h, f.sb, f.tab, 7, 0, ops, fp)
+			c17RunCase(c, run, &tot, f.w, f.h, f.sb, f.tab, 7, 0, ops, fp, nil)
 		})
 	}
 
